@@ -223,7 +223,7 @@ fn key20_eq(a: &[u8; 20], b: &[u8; 20]) -> bool {
 }
 
 #[kani::proof]
-#[kani::unwind(130)]
+#[kani::unwind(80)]
 #[kani::stub(core::str::from_utf8, verif_oracle::from_utf8_model)]
 fn c08_init() {
     let sk: [u8; 40] = kani::any();
@@ -601,7 +601,7 @@ fn p20_eq(a: &[u8; 20], b: &[u8; 20]) -> bool {
 /// C06: the client's proof is SHA-1(name | 0u32 | own seed LE | server seed LE | session key); the seed
 /// accessor returns the 4-byte draw and that value is the one used.
 #[kani::proof]
-#[kani::unwind(130)]
+#[kani::unwind(80)]
 #[kani::stub(core::str::from_utf8, verif_oracle::from_utf8_model)]
 fn c06_tbc_client_msg() {
     let name = crate::normalized_string::verif_h::any_name(16);
@@ -622,7 +622,7 @@ fn c06_tbc_client_msg() {
 
 /// C06: the server hands out header crypto exactly when the presented proof equals the value for its own seed.
 #[kani::proof]
-#[kani::unwind(130)]
+#[kani::unwind(80)]
 #[kani::stub(core::str::from_utf8, verif_oracle::from_utf8_model)]
 fn c06_tbc_server_decision() {
     let name = crate::normalized_string::verif_h::any_name(16);
